@@ -3,7 +3,8 @@ import Mathlib.Data.List.Basic
 /-!
 # C16 — A blob holds only content of its own dataset; served intact
 
-By induction over arbitrary histories of builds, reader constructions, damage and deletion under one name / directory.
+By induction over arbitrary histories of builds, reader constructions, damage, deletion and replacement of the archive
+(by one built elsewhere) under one name / directory.
 -/
 
 /-- the dataset and member names of the last build in a history, if the archive was not damaged or deleted afterwards -/
@@ -14,6 +15,7 @@ def lastArchive : List BlobOp → ArchiveState → ArchiveState
   | .damage :: rest, a => lastArchive rest (match a with | .absent => .absent | _ => .corrupt)
   | .delete :: rest, _ => lastArchive rest .absent
   | .construct :: rest, a => lastArchive rest a
+  | .install ds names :: rest, _ => lastArchive rest (.valid (names.map (fun n => ⟨n, ds⟩)))
 
 /-- T16.a  After any history the archive is exactly what the last build wrote (or corrupt / absent if damaged / deleted since):
 it never contains members of any other dataset, whatever was built or unpacked in the directory before. -/
@@ -32,6 +34,7 @@ theorem C16_archive_is_last_build (d : BlobDir) (ops : List BlobOp) : (d.run ops
       cases ha : d.archive <;> simp only [BlobDir.step, ha] <;> rw [ih] <;> simp [ha]
     | delete => simp only [BlobDir.step, lastArchive]; exact ih _
     | construct => simp only [BlobDir.step, lastArchive]; exact ih _
+    | install ds names => simp only [BlobDir.step, lastArchive]; exact ih _
 
 /-- T16.a  What a reader serves depends only on the archive it is pointed at: a valid archive is served member for
 member — never leftovers of the working directory —, a missing or corrupt archive is rejected. -/
@@ -48,6 +51,16 @@ theorem C16_build_own_dataset (d : BlobDir) (ds : Nat) (names : List String) :
   subst h
   obtain ⟨n, _, rfl⟩ := List.mem_map.mp hm
   rfl
+
+/-- T16.a (histories)  whatever happened before — builds, reads, damage, deletion, an archive copied in —, a reader constructed now
+serves exactly the members of the archive as the last build or installation left it, or fails. -/
+theorem C16_reader_serves_last_archive (d : BlobDir) (ops : List BlobOp) :
+    ((d.run ops).1.step .open).2 = (match lastArchive ops d.archive with | .valid ms => .served ms | _ => .error) := by
+  rw [(C16_open_serves_archive_only _).1, C16_archive_is_last_build]
+
+/-- Non-vacuity: a reader served dataset 1, then an archive of dataset 2 built elsewhere is copied in: the next reader is served
+dataset 2's members only. -/
+example : ((({} : BlobDir).run [.build 1 ["a"], .open, .install 2 ["a", "b"], .open]).2.getLast?) = some (.served [⟨"a", 2⟩, ⟨"b", 2⟩]) := by decide
 
 /-- Non-vacuity: build A, open, build B under the same name, open: the second reader is served B's members only. -/
 example : ((({} : BlobDir).run [.build 1 ["a"], .open, .build 2 ["b"], .open]).2.getLast?) = some (.served [⟨"b", 2⟩]) := by decide
